@@ -436,7 +436,6 @@ Lemma AInv_call P X (a : astate CS) em dones cs0 chunks fc n cap dir r :
   exists dones' cs0' chunks', AInv P X (ao_a o) (em ++ ao_out o) dones' cs0' chunks'.
 Proof.
   intros A Hmb. unfold a_call. cbv zeta.
-  destruct (negb (is_init (a_k a)) && (k_appliedSI (a_k a) && a_null a)); [discriminate|].
   destruct (ko_ret (kstep P fc (a_k a) (tk n (dr (a_pos a) X)) cap dir)) as [r'|] eqn:Er; [|rewrite a_kfail_ret; discriminate].
   cbn [ao_ret ao_a ao_out]. intros _.
   destruct (AInv_kstep P X a em dones cs0 chunks fc n cap dir r' A Hmb Er) as ((d1 & c1 & ch1 & HI) & _ & _).
@@ -659,7 +658,6 @@ Theorem api_call_progress P X (a : astate CS) em dones cs0 chunks fc n cap dir r
   (k_stage (a_k (ao_a o)) = KInit /\ k_frameEnded (a_k (ao_a o)) = true).
 Proof.
   intros A Hmb Hinp Hcap. unfold a_call. cbv zeta.
-  destruct (negb (is_init (a_k a)) && (k_appliedSI (a_k a) && a_null a)); [discriminate|].
   set (inp := tk n (dr (a_pos a) X)) in *.
   destruct (ko_ret (kstep P fc (a_k a) inp cap dir)) as [r'|] eqn:Er; [|rewrite a_kfail_ret; discriminate].
   cbn [ao_ret ao_a ao_out ao_consumed a_k]. intros _.
@@ -923,7 +921,7 @@ Lemma a_call_tgt P X (a : astate CS) fc n cap dir r :
   Tgt P (a_k a) -> ao_ret (a_call CS cs_begin compress_chunk P fc X a n cap dir) = Some r ->
   Tgt P (a_k (ao_a (a_call CS cs_begin compress_chunk P fc X a n cap dir))).
 Proof.
-  intros HT. unfold a_call. cbv zeta. destruct (_ && (_ && _)); [discriminate|].
+  intros HT. unfold a_call. cbv zeta.
   destruct (ko_ret (kstep P fc (a_k a) _ cap dir)) as [r'|] eqn:Er; [|rewrite a_kfail_ret; discriminate].
   cbn [ao_ret ao_a a_k]. intros _. apply (kstep_tgt P fc (a_k a) _ cap dir r' HT Er).
 Qed.
